@@ -87,3 +87,9 @@ Proof.
       * constructor; [|exact I1]. destruct b; [congruence|simpl; lia].
       * rewrite I2, skipn_length. lia.
 Qed.
+
+(* docsStream keeps ONE list of fractions for the whole request: every chunk is fetched from the same,
+   unmodified list (the model has no way to alter it between chunks; FetchDocs must not either) *)
+Lemma batches_same_fracs : forall g fs ids,
+  batches g fs ids = batch_loop (S (length ids)) (calc_now g) (fetch_docs g fs) ids (init_chunk g).
+Proof. reflexivity. Qed.
